@@ -40,7 +40,11 @@ class Diagonalization(Function):
         if ctx.batch_shape is None:
             q_mat = q_mat.unsqueeze(-3)
             t_mat = t_mat.unsqueeze(-3)
-        if t_mat.ndimension() == 3:  # If we only used one probe vector
+        # lanczos_tridiag drops the probe dimension (a single probe vector is used here); add it back whatever
+        # the number of batch dimensions is (`== 3` is only right for exactly one batch dimension)
+        batch_ndim = 1 if ctx.batch_shape is None else len(ctx.batch_shape)
+        single_probe = t_mat.ndimension() == batch_ndim + 2
+        if single_probe:
             q_mat = q_mat.unsqueeze(0)
             t_mat = t_mat.unsqueeze(0)
 
@@ -57,8 +61,9 @@ class Diagonalization(Function):
 
         if ctx.batch_shape is None:
             q_mat = q_mat.squeeze(1)
-        q_mat = q_mat.squeeze(0)
-        eigenvalues = eigenvalues.squeeze(0)
+        if single_probe:
+            q_mat = q_mat.squeeze(0)
+            eigenvalues = eigenvalues.squeeze(0)
 
         to_save = list(matrix_args) + [q_mat, eigenvalues]
         ctx.save_for_backward(*to_save)
